@@ -17,7 +17,7 @@ RULE = (
     "Hypothesis directory inputs of 1-4 files whose lines are standalone address tokens of both families in "
     "generated spellings (shared pool with duplicates across files, last-bit and near neighbours, masks, preserved "
     "addresses) under generated configurations (host bits 0/1/8/31/32/random, prefix and network lists, any salt), "
-    "run through anonymize_files(dumpfile=...) or netconan.netconan.main -d. Oracle: the dump parses as "
+    "optionally with undecodable files in between, run through anonymize_files(dumpfile=...) or netconan.netconan.main -d. Oracle: the dump parses as "
     "orig<TAB>anon lines; every address token whose text changed in an output file (paired with its output token by "
     "position with the harness's scanner) is listed with exactly that replacement; no left and no right value occurs "
     "twice; every listed pair agrees with a fresh anonymizer. Non-trivial = input with >= 2 distinct replaced addresses "
@@ -38,6 +38,10 @@ def check_dump(case, ev):
             texts[name] = "".join("".join(s["s"] for s in l) + "\n" for l in lines)
             with open(os.path.join(d, "in", name), "w", encoding="utf-8", newline="") as fh:
                 fh.write(texts[name])
+        for k in case.get("bad", []):
+            # files that cannot be processed, sorted between the good ones; they must not disturb the map
+            with open(os.path.join(d, "in", "f%d-bad.cfg" % k), "wb") as fh:
+                fh.write(b"ip address 9.8.7.6\n\xff\xfe\x80 broken\n")
         dump = os.path.join(d, "map.txt")
         if via == "api":
             _, exc = guarded(
@@ -134,7 +138,7 @@ def check_dump(case, ev):
         if want != int(a):
             return Finding("dump/pair-disagrees-with-mapping-function:v%d" % o.version, "cfg=%r: dump has %s -> %s, a fresh anonymizer maps it to %s" % (cfg, o, a, type(o)(want)), case)
     B = cfg["B4"]
-    ev.case(case, len(replaced[4]) >= 2 and len(replaced[6]) >= 2, ["via-" + via, "B4-%s" % (B if B in (0, 1, 8, 31, 32) else "other"), "files%d" % len(files), "pairs%d" % min(len(pairs) // 5 * 5, 20)])
+    ev.case(case, len(replaced[4]) >= 2 and len(replaced[6]) >= 2, ["via-" + via, "B4-%s" % (B if B in (0, 1, 8, 31, 32) else "other"), "files%d" % len(files), "pairs%d" % min(len(pairs) // 5 * 5, 20)] + (["undecodable-file-in-between"] if case.get("bad") else []))
     return None
 
 
@@ -167,7 +171,8 @@ def _case(draw):
     for i in range(draw(st.integers(1, 4))):
         lines = [draw(G.token_line(cfg=cfg, allow_v4tail=True, pool=pool, special4=st.sampled_from(MASKS)))["segs"] for _ in range(draw(st.integers(1, 4)))]
         files.append(["f%d.cfg" % i, lines])
-    return {"cfg": cfg, "files": files, "via": via}
+    bad = draw(st.lists(st.integers(0, 3), max_size=2, unique=True)) if draw(st.integers(0, 3)) == 0 else []
+    return {"cfg": cfg, "files": files, "via": via, "bad": bad}
 
 
 def t_dump(shard, nshards, seed, ev, known, n=100):
